@@ -58,7 +58,7 @@ pub struct Opts {
     ///
     /// Accepts standard size modifiers like "M" and "GB". Actual
     /// usage internally depends on the driver.
-    #[arg(long,  default_value = "1MB", value_parser=unbytify)]
+    #[arg(long,  default_value = "1MB", value_parser=parse_block_size)]
     pub block_size: u64,
 
     /// Do not overwrite an existing file
@@ -161,6 +161,15 @@ pub struct Opts {
     ///
     /// Source and destination files, or multiple source(s) to a directory.
     pub paths: Vec<String>,
+}
+
+// A copy cannot proceed in blocks of zero bytes.
+fn parse_block_size(arg: &str) -> std::result::Result<u64, String> {
+    match unbytify(arg) {
+        Ok(0) => Err("block size must be greater than zero".to_string()),
+        Ok(size) => Ok(size),
+        Err(e) => Err(e.to_string()),
+    }
 }
 
 impl Opts {
